@@ -1482,7 +1482,7 @@ var knownPanickingExternals = map[string]string{
 // result the literal assigns (so the panic becomes an error return).
 func panickingDecoderContained(c *Ctx, entries []string) {
 	const R = "panicking-decoder-contained"
-	c.rule(R, "every call of a third-party function listed as panicking on some input (frozen table, each row with the input that was run) reachable from the parser entry points is made by a function that defers a literal calling recover() and assigning its error result")
+	c.rule(R, "every call of a third-party function listed as panicking on some input (frozen table, each row with the input that was run) reachable from the parser entry points is made by a function that defers — before the call — a function literal, or a named function of the module handed the address of the error result, that calls recover() itself and assigns the error result")
 	n := 0
 	for _, d := range c.reachDecls(R, entries...) {
 		for _, cs := range callsIn(d.pkg, d.fd.Body) {
@@ -1497,23 +1497,52 @@ func panickingDecoderContained(c *Ctx, entries []string) {
 				if !ok {
 					return true
 				}
-				lit, isLit := df.Call.Fun.(*ast.FuncLit)
-				if !isLit {
+				// the deferred function: a literal, or a named function of the module deferred
+				// directly (recover only works in the deferred function itself) that receives the
+				// address of the error result
+				var body *ast.BlockStmt
+				bpk := d.pkg
+				viaPtr := false
+				if lit, isLit := df.Call.Fun.(*ast.FuncLit); isLit {
+					body = lit.Body
+				} else if g, _ := typeutil.Callee(d.pkg.TypesInfo, df.Call).(*types.Func); g != nil && g.Pkg() != nil && strings.HasPrefix(g.Pkg().Path(), modPath+"/") {
+					if gfd, gpk := c.P.FuncDecl(objName(g)); gfd != nil && gfd.Body != nil {
+						for _, a := range df.Call.Args {
+							if u, isU := a.(*ast.UnaryExpr); isU && u.Op == token.AND {
+								if o := objOf(d.pkg, u.X); o != nil && o.Type().String() == "error" {
+									viaPtr = true
+								}
+							}
+						}
+						if viaPtr {
+							body, bpk = gfd.Body, gpk
+						}
+					}
+				}
+				if body == nil {
 					return true
 				}
 				recovers, assignsErr := false, false
-				ast.Inspect(lit.Body, func(y ast.Node) bool {
+				ast.Inspect(body, func(y ast.Node) bool {
 					switch z := y.(type) {
+					case *ast.FuncLit:
+						return false // recover in a nested function does not stop the panic
 					case *ast.CallExpr:
 						if id, ok := z.Fun.(*ast.Ident); ok && id.Name == "recover" {
-							if _, isB := d.pkg.TypesInfo.Uses[id].(*types.Builtin); isB {
+							if _, isB := bpk.TypesInfo.Uses[id].(*types.Builtin); isB {
 								recovers = true
 							}
 						}
 					case *ast.AssignStmt:
 						for _, l := range z.Lhs {
-							if o := objOf(d.pkg, l); o != nil && o.Type().String() == "error" {
+							if o := objOf(bpk, l); o != nil && o.Type().String() == "error" {
 								assignsErr = true
+							}
+							// *errp = …
+							if st, isStar := l.(*ast.StarExpr); isStar && viaPtr {
+								if t := bpk.TypesInfo.TypeOf(st); t != nil && t.String() == "error" {
+									assignsErr = true
+								}
 							}
 						}
 					}
@@ -1606,4 +1635,136 @@ func optionCapturesArgumentsOnly(c *Ctx) {
 	if n == 0 {
 		c.undecided(R, "anchor:options", "-", "no option constructor found")
 	}
+}
+
+// lossyStringFuncs: functions of the standard library that map different strings to the same
+// string. Applied to content inside an equality encoder they make different values compare equal
+// and share a checksum.
+var lossyStringFuncs = map[string]bool{
+	"strings.ToLower": true, "strings.ToUpper": true, "strings.ToTitle": true, "strings.Title": true,
+	"strings.TrimSpace": true, "strings.Trim": true, "strings.TrimLeft": true, "strings.TrimRight": true,
+	"strings.TrimPrefix": true, "strings.TrimSuffix": true, "strings.TrimFunc": true, "strings.Fields": true,
+	"strings.ToValidUTF8": true,
+	"strings.EqualFold": true, "strings.ToLowerSpecial": true, "strings.ToUpperSpecial": true,
+	"bytes.ToLower": true, "bytes.ToUpper": true, "bytes.TrimSpace": true, "bytes.EqualFold": true,
+	"path.Clean": true, "path/filepath.Clean": true,
+	"unicode.ToLower": true, "unicode.ToUpper": true,
+	"golang.org/x/text/cases.Caser.String": true,
+}
+
+// encodingValuesVerbatim: the equality encoders write attribute content as it is.
+func encodingValuesVerbatim(c *Ctx, rule string, encoders ...string) {
+	c.rule(rule, "no function of the equality encoders (the flatString methods and the package helpers they call) applies a many-to-one string transformation (case mapping, trimming, path cleaning, case-insensitive comparison — frozen list lossyStringFuncs; replacing is not listed because escaping by replacement is one-to-one) to what it encodes: content that differs must encode differently")
+	ds := pkgFilter(c.reachDecls(rule, encoders...), "sbom.")
+	n := 0
+	for _, d := range ds {
+		if !strings.Contains(d.name, "flatString") && !strings.Contains(strings.ToLower(d.name), "flat") && ast.IsExported(d.obj.Name()) {
+			continue // exported accessors reached from an encoder are not part of the encoding
+		}
+		n++
+		var sites []string
+		var pos token.Pos
+		for _, cs := range callsIn(d.pkg, d.fd.Body) {
+			full := cs.callee.FullName()
+			if lossyStringFuncs[full] {
+				sites = append(sites, fmt.Sprintf("%s(%s)", full, exprText(c.P.Fset, cs.call.Args[0])))
+				if !pos.IsValid() {
+					pos = cs.call.Pos()
+				}
+			}
+		}
+		c.check(len(sites) == 0, rule, d.name, c.P.Pos(pos), "content is encoded as it is",
+			fmt.Sprintf("%s transforms what it encodes with %s: values that differ only in what that transformation removes get the same encoding, so they compare equal and share a checksum", d.name, strings.Join(sites, ", ")))
+	}
+	c.floor(rule, 4, "the four flatString encoders")
+}
+
+// snifferStreamUses: layout independence of detection. The sniffer hands its stream to the JSON
+// decoder and to the line scanner, and rewinds it; it never looks at raw bytes itself. A decision
+// taken on bytes read directly from the stream (a first-byte test, a prefix comparison) depends on
+// white space, byte-order marks and key order, which JSON allows to vary freely.
+func snifferStreamUses(c *Ctx) {
+	const R = "sniffer-stream-to-decoders-only"
+	c.rule(R, "every use of SniffReader's stream parameter — in SniffReader and in module helpers it is handed to — is Seek(0, start), an argument of json.NewDecoder, bufio.NewScanner, bufio.NewReader or io.ReadAll, or a hand-over to another module helper that obeys the same rule; no direct Read/ReadAt/ReadByte on the stream")
+	d := c.decl(R, "formats.(*Sniffer).SniffReader")
+	if d == nil {
+		return
+	}
+	var param types.Object
+	if len(d.fd.Type.Params.List) == 1 && len(d.fd.Type.Params.List[0].Names) == 1 {
+		param = d.pkg.TypesInfo.Defs[d.fd.Type.Params.List[0].Names[0]]
+	}
+	if param == nil {
+		c.undecided(R, d.name+"#param", c.P.Pos(d.fd.Pos()), "stream parameter not found")
+		return
+	}
+	allowedArgOf := map[string]bool{"encoding/json.NewDecoder": true, "bufio.NewScanner": true, "bufio.NewReader": true, "io.ReadAll": true, "bufio.NewReaderSize": true}
+	var bad []string
+	var badPos token.Pos
+	uses := 0
+	var visit func(dd *declInfo, p types.Object, depth int)
+	visit = func(dd *declInfo, p types.Object, depth int) {
+		if depth > 3 || p == nil {
+			return
+		}
+		// every identifier use of p, classified by its parent
+		ast.Inspect(dd.fd.Body, func(n ast.Node) bool {
+			ce, ok := n.(*ast.CallExpr)
+			if !ok {
+				return true
+			}
+			f, _ := typeutil.Callee(dd.pkg.TypesInfo, ce).(*types.Func)
+			// method on the stream
+			if sel, isSel := ce.Fun.(*ast.SelectorExpr); isSel && objOf(dd.pkg, sel.X) == p {
+				uses++
+				switch sel.Sel.Name {
+				case "Seek", "Close":
+				default:
+					bad = append(bad, fmt.Sprintf("%s calls %s.%s directly", dd.name, p.Name(), sel.Sel.Name))
+					if !badPos.IsValid() {
+						badPos = ce.Pos()
+					}
+				}
+				return true
+			}
+			for ai, a := range ce.Args {
+				if objOf(dd.pkg, a) != p {
+					continue
+				}
+				uses++
+				if f == nil {
+					bad = append(bad, fmt.Sprintf("%s hands the stream to a dynamic call", dd.name))
+					continue
+				}
+				full := f.FullName()
+				if allowedArgOf[full] {
+					continue
+				}
+				if f.Pkg() != nil && strings.HasPrefix(f.Pkg().Path(), modPath+"/") {
+					if gfd, gpk := c.P.FuncDecl(objName(f)); gfd != nil && gfd.Body != nil {
+						var gp types.Object
+						k := 0
+						for _, fl := range gfd.Type.Params.List {
+							for _, nm := range fl.Names {
+								if k == ai {
+									gp = gpk.TypesInfo.Defs[nm]
+								}
+								k++
+							}
+						}
+						visit(&declInfo{fd: gfd, pkg: gpk, obj: f, name: objName(f)}, gp, depth+1)
+						continue
+					}
+				}
+				bad = append(bad, fmt.Sprintf("%s hands the stream to %s", dd.name, full))
+				if !badPos.IsValid() {
+					badPos = ce.Pos()
+				}
+			}
+			return true
+		})
+	}
+	visit(d, param, 0)
+	c.check(len(bad) == 0 && uses > 0, R, d.name, c.P.Pos(badPos), fmt.Sprintf("%d uses of the stream: decoders, scanners and rewinds only", uses),
+		fmt.Sprintf("the sniffer reads raw bytes of the stream itself (%s): what it decides then depends on the byte layout — leading white space, a byte-order mark, key order — and a document the JSON decoder accepts is no longer detected", strings.Join(bad, "; ")))
 }
